@@ -17,7 +17,7 @@ META = {
                   "scopes, local environments) is handed back unchanged (ctx_frame, ctx_frame_fields, checkMethod_balanced); the two "
                   "repaired variants are refuted on concrete contexts (ctx_leak_witness: return type reset to nil; "
                   "ctx_defer_leak_witness: hasDefer erased) and proved under the hypotheses that exclude them. Tie: a probe runs the "
-                  "real checker on 9 closure shapes inside a method context and the regenerated table of leaked fields is re-proved "
+                  "real checker on 9 closure shapes inside a method and an init context and the regenerated table of leaked fields is re-proved "
                   "clean by `decide` (ctx_probe_clean; one execution per shape). That the four edits (insert an unused local bound to "
                   "a value/closure at any statement position, consistent renaming of a local, redundant parentheses, reordering of "
                   "independent method definitions) preserve verdict and output is tested metamorphically on generated programs; the "
@@ -261,6 +261,15 @@ def template(uid, pre, post, insert, at):
             f"do\n  println(D{uid}.f(1))\n  println(D{uid}.f(9))\ncatch String() as e\n  println(\"caught \" + e)\nend\n")
 
 
+def template_init(uid, insert, at):
+    """`init` context: after the inserted declaration the checker must still be in init mode (instance variables may
+    be initialised) and `self` must still be the instance"""
+    lines = [insert, "@v = a"] if at == 0 else ["@w = a + 1", insert, "@v = a"]
+    body = "\n".join("      " + l for x in lines if x for l in x.split("\n"))
+    return (f"module D{uid}\n  class K\n    attr v: Int\n    attr w: Int\n    init(a: Int)\n      @w = 0\n{body}\n    end\n"
+            f"    def sum: Int\n      @v + @w\n    end\n  end\nend\nprintln(D{uid}::K(3).sum)\n")
+
+
 # ---------------------------------------------------------------- running
 
 def obs(a):
@@ -343,7 +352,7 @@ def run(ctx):
         for l in c["leaked"]:
             f = l.split(":")[0]
             kind = "context-leak" if f in CTX_FIELDS else "context-leak-unmodelled-field"
-            ctx.violation(kind, {"field": f, "closure": c["src"]},
+            ctx.violation(kind, {"field": f, "closure": c["src"]} if not c.get("variant") else {"field": f, "closure": c["src"], "context": "init"},
                           f"after checking the closure literal inside a method context the Checker field `{l}` differs")
     ctx.stat("probe-closures", len(doc["cases"]))
     if ctx.replay:
@@ -401,6 +410,10 @@ def run(ctx):
         a = template(uid + "o", PRE[pi], POST[qi], "", at)
         b = template(uid + "e", PRE[pi], POST[qi], INSERTS[ii], at)
         pairs.append((f"t{k}", a, b, "insert-template", None, None))
+    for k, ins in enumerate(INSERTS if not ctx.quick else ctx.rng.sample(INSERTS, 4)):
+        for at in (0, 1):
+            uid = f"{ctx.seed}t{900 + 2 * k + at}"
+            pairs.append((f"i{k}{at}", template_init(uid + "o", "", at), template_init(uid + "e", ins, at), "insert-template", None, None))
     # corpus pairs
     for k, (a, b) in enumerate(corpus_pairs()):
         pairs.append((f"c{k}", a, b, "corpus", None, None))
